@@ -141,6 +141,15 @@ CHECKS = {
 NOT_YET = "check not built yet in this session (planned in DESIGN.md §3); will move to checks when its harness lands"
 
 
+def _notes():
+    k = json.load(open(os.path.join(V, 'known_findings.json')))['findings']
+    fixed = ['%s (%s)' % (f['commit'], f['property']) for f in k if f.get('status') == 'fixed']
+    known = ['%s' % f['id'] for f in k if f.get('status') == 'known']
+    return ('fix: commits in /repo: ' + ', '.join(fixed) + '. Known findings (known_findings.json): ' + ', '.join(known) +
+            '. Exit codes of every check: 0 held on everything explored, 1 reproduced violation (VIOLATION line), 3 harness error. '
+            'BT_REPO=<tree> points a check at another working tree (used for mutant testing in scratch worktrees).')
+
+
 def main():
     props = [json.loads(l) for l in open(os.path.join(V, 'properties.jsonl'))]
     checks = []
@@ -171,7 +180,7 @@ def main():
         engines=[dict(name='symbt', path='symbt/', serves_properties=[c['property_id'] for c in checks],
                       kind_free_text='symbolic execution of the real Python source on exact rational-function values with z3 deciding every branch and obligation; concrete replay on unshimmed bt')],
         checks=checks,
-        notes='fix commits in /repo: 6983920 (pandas 3 read-only .values). Known findings: known_findings.json. Exit 3 = harness error.',
+        notes=_notes(),
         not_applicable=na,
     )
     json.dump(m, open(os.path.join(V, 'MANIFEST.json'), 'w'), indent=1)
